@@ -26,6 +26,7 @@ import (
 	"metacontroller/pkg/controller/common"
 	"metacontroller/pkg/internal/verif/kit"
 	"metacontroller/pkg/internal/verif/mc"
+	"metacontroller/pkg/internal/verif/vcache"
 	"metacontroller/pkg/internal/verif/world"
 )
 
@@ -578,6 +579,9 @@ func TestVerifC20Workers(t *testing.T) {
 		for _, last := range []string{"delete:x", "update:x:v2", "update:x:INVALID-no-hooks"} {
 			c20InFlightCustomize(r, last)
 		}
+		for _, last := range []string{"delete:x", "update:x:v2"} {
+			c20InFlightRelatedSync(r, last)
+		}
 	}
 	r.States = r.Evaluations
 }
@@ -797,6 +801,64 @@ func c20InFlightCustomize(r *mc.Report, last string) {
 	}
 	_ = wantRefs
 	r.Outcome("in-flight-customize:" + strings.Split(last, ":")[0])
+	x.teardown()
+	waitCensus(0)
+}
+
+// c20InFlightRelatedSync: the instance is stopped while one of its workers waits for the cache of a related
+// resource to fill (the LIST of that resource keeps failing, so it never does). Whatever the worker does when the
+// wait is cut short by the stop, the subscription it opened for the related resource is released.
+func c20InFlightRelatedSync(r *mc.Report, last string) {
+	hist := []string{"create:x:with-customize", last}
+	r.EvalDistinct(true)
+	x := newC20World()
+	x.mc.numWorkers = 2
+	for _, s := range append([]string{"with-customize"}, c20Specs...) {
+		x.Hooks.Handle(c20HookPath("x", s), world.JSON(func(req map[string]interface{}) interface{} { return kit.M{"status": kit.M{}, "children": kit.L{}} }))
+	}
+	x.Hooks.Handle("/x/with-customize/customize", world.JSON(func(req map[string]interface{}) interface{} {
+		return kit.M{"relatedResources": kit.L{kit.M{"apiVersion": "v1", "resource": "others", "labelSelector": kit.M{}}}}
+	}))
+	x.hist = append(x.hist, hist[0])
+	x.applyRaw(hist[0])
+	if !waitCensus(2) {
+		c20LivenessFailures++
+		r.Capped(fmt.Sprintf("in-flight related sync %v: the instance never reached 2 workers", hist))
+		x.teardown()
+		waitCensus(0)
+		return
+	}
+	vcache.StartUnsynced.Store(true)
+	defer vcache.StartUnsynced.Store(false)
+	x.DeliverAll() // the parent arrives: its first sync asks for related objects and waits for their cache
+	limit := time.Now().Add(time.Minute)
+	for x.Factory.VerifRefCounts()["others.v1"] == 0 && time.Now().Before(limit) {
+		time.Sleep(time.Millisecond)
+	}
+	if x.Factory.VerifRefCounts()["others.v1"] == 0 {
+		r.Capped(fmt.Sprintf("in-flight related sync %v: the worker never subscribed to the related resource (harness liveness wait)", hist))
+		x.teardown()
+		waitCensus(0)
+		return
+	}
+	time.Sleep(150 * time.Millisecond) // let the worker reach the wait (it polls every 100 ms)
+	vcache.StartUnsynced.Store(false)
+	x.hist = append(x.hist, hist[1])
+	x.applyRaw(hist[1])
+	want := 0
+	if id := x.object["x"]; id != "" && c20Valid(id) {
+		want = 2
+	}
+	waitCensus(want)
+	// the successor (update:x:v2 has no customize hook) never asks for "others": whatever is left is the old one's
+	deadline := time.Now().Add(10 * time.Second)
+	for x.Factory.VerifRefCounts()["others.v1"] != 0 && time.Now().Before(deadline) {
+		time.Sleep(10 * time.Millisecond)
+	}
+	if n := x.Factory.VerifRefCounts()["others.v1"]; n != 0 {
+		r.Violate("C20:workers:subscription-outlives-instance:related-cache-never-synced", fmt.Sprintf("%v: the instance was stopped while a worker waited for the cache of the related resource others.v1 (whose LIST keeps failing); 10 s after the stop it still holds %d subscription(s) to it (factory subscriptions %v)", hist, n, sortedCounts(x.Factory.VerifRefCounts())), kit.M{"events": hist, "in_flight": "related-cache-sync"})
+	}
+	r.Outcome("in-flight-related-sync:" + strings.Split(last, ":")[0])
 	x.teardown()
 	waitCensus(0)
 }
